@@ -108,6 +108,7 @@ class Recorder:
         self.mutations = {}      # (qualname, param path) -> example
         self.nondet = {}         # qualname -> example
         self.global_rng = {}     # qualname -> example
+        self.settings = {}       # qualname -> which process-wide setting a call left changed
         self.calls = {}          # qualname -> count
         self.errors = {}
 
@@ -150,11 +151,19 @@ class Recorder:
                 except Exception:
                     pre = None
             gstate = numpy.random.get_state()[1][:8].tobytes(), numpy.random.get_state()[2]
+            # round 6: process-wide SETTINGS are hidden state too.  The call runs under non-default floating-point error handling
+            # (everything "ignore": same values, no warnings), so that a function that "restores" NumPy's defaults instead of the
+            # caller's settings is seen (seeded change C20-I); print options, the warnings filter list, the working directory and the
+            # environment are compared as well
+            ambient = _process_settings(set_err=(depth == 0))
             _tls.depth = depth + 1
             try:
                 res = fn(*args, **kw)
             finally:
                 _tls.depth = depth
+                left = _process_settings_after(ambient)
+                if left and depth == 0:
+                    rec.settings.setdefault(qual, {"changed": left, "args": _describe(named)})
             g2 = numpy.random.get_state()[1][:8].tobytes(), numpy.random.get_state()[2]
             if g2 != gstate and depth == 0:
                 rec.global_rng.setdefault(qual, _describe(named))
@@ -181,6 +190,30 @@ class Recorder:
         wrapper.__doc__ = getattr(fn, "__doc__", None)
         wrapper.__wrapped_by_aoverif__ = fn
         return wrapper
+
+
+def _process_settings(set_err):
+    import warnings
+    old = numpy.seterr(divide="ignore", over="ignore", under="ignore", invalid="ignore") if set_err else None
+    return {"old_err": old, "err": dict(numpy.geterr()), "print": repr(sorted(numpy.get_printoptions().items(), key=lambda kv: kv[0])),
+            "warnings": len(warnings.filters), "cwd": os.getcwd(), "env": hash(tuple(sorted(os.environ.items()))),
+            "pyrandom": hash(__import__("random").getstate())}
+
+
+def _process_settings_after(ambient):
+    """names of the settings a call left different from what it found; the error state set for the call is put back"""
+    import warnings
+    now = {"err": dict(numpy.geterr()), "print": repr(sorted(numpy.get_printoptions().items(), key=lambda kv: kv[0])),
+           "warnings": len(warnings.filters), "cwd": os.getcwd(), "env": hash(tuple(sorted(os.environ.items()))),
+           "pyrandom": hash(__import__("random").getstate())}
+    left = []
+    for k, label in (("err", "numpy.geterr()"), ("print", "numpy print options"), ("warnings", "the warnings filter list"),
+                     ("cwd", "the working directory"), ("env", "os.environ"), ("pyrandom", "the state of Python's global random generator")):
+        if now[k] != ambient[k]:
+            left.append("%s: %s -> %s" % (label, ambient[k], now[k]) if k in ("err", "warnings", "cwd") else label)
+    if ambient["old_err"] is not None:
+        numpy.seterr(**ambient["old_err"])
+    return left
 
 
 def _describe(named):
@@ -1317,6 +1350,9 @@ def run(chk):
         chk.fail("global-rng:%s" % q, "%s advances NumPy's global random generator (hidden state)" % q, {"function": q, "args": ex})
         if q in predicted and not predicted[q]["global"]:
             chk.broke("translator", "observed global-RNG use of %s was not predicted by the static analysis" % q)
+    for q, ex in sorted(rec.settings.items()):
+        chk.fail("process-settings:%s" % q, "%s leaves process-wide state changed (hidden state that later calls of other functions see): %s; "
+                 "called with NumPy's error handling set to 'ignore' by the caller" % (q, "; ".join(ex["changed"])), {"function": q, **ex})
     for q, ex in sorted(rec.nondet.items()):
         if q in rec.global_rng:
             continue          # same root cause, already reported
